@@ -6,5 +6,16 @@ exec(open('/verif/docs_src/gen_table.py').read())
 PY
 .venv/bin/python /verif/docs_src/gen_sec7.py
 python3 seeded/make_meta.py > /verif/docs_src/matrix.md
-cat /verif/docs_src/head.md /verif/docs_src/table.md /verif/docs_src/mid.md /verif/docs_src/sec7.md /verif/docs_src/tail.md /verif/docs_src/matrix.md /verif/docs_src/end.md > /verif/DESIGN.md
+python3 - <<'PY'
+import json, glob
+metas = [json.load(open(f)) for f in glob.glob('/verif/seeded/C*/meta.json')]
+total = len(metas)
+caught = sum(1 for m in metas if m["check_result"]["caught"])
+byob = sum(1 for m in metas if any(not v.startswith("bounded_") for v in m["check_result"]["violations"]))
+s = open('/verif/docs_src/end.md').read().replace("@TOTAL@", str(total)).replace("@BYOB@", str(byob))
+open('/verif/docs_src/end.filled.md', 'w').write(s)
+print("seeds", total, "caught", caught, "by obligation", byob)
+assert caught == total, "a seeded change is not reported"
+PY
+cat /verif/docs_src/head.md /verif/docs_src/table.md /verif/docs_src/mid.md /verif/docs_src/sec7.md /verif/docs_src/tail.md /verif/docs_src/matrix.md /verif/docs_src/end.filled.md > /verif/DESIGN.md
 wc -l /verif/DESIGN.md
